@@ -8,7 +8,7 @@ class C18(BaseCheck):
           'and percentile samples issued through freshly constructed Sources drawn from a small pool '
           'of field tuples (so equal-but-distinct Source objects abound), checked against a dict keyed '
           'by the field tuple: per-service aggregates == sums, gauge == last value per tuple, number of '
-          'series <= number of distinct tuples; single-source sample streams of sizes around the '
+          'series <= number of distinct tuples; a fifth of the counter / gauge updates go to a second metrics class with the same short names under another base name, judged separately; single-source sample streams of sizes around the '
           '1000-sample reservoir (constant/sorted/random/heavy-tailed): reported percentiles within '
           '[min,max] of the retained samples and non-decreasing; every 4th case also runs N calls '
           'through a real Thrift client on the simulated network and checks the dispatcher/socket '
@@ -20,7 +20,8 @@ class C18(BaseCheck):
   REQUIRED_ANCHORS = ANCHORS
   REQUIRED_CLASSES = ('counter', 'gauge', 'percentile:below-reservoir', 'percentile:above-reservoir',
                       'full-stack', 'percentile:busy-after-full', 'zero-increment', 'fractional-increment',
-                      'overlapping-measure', 'gauge:persistent-objects', 'percentile:second-aggregation')
+                      'overlapping-measure', 'gauge:persistent-objects', 'percentile:second-aggregation',
+                      'sibling-class-same-short-name')
   ASSUMPTIONS = ('percentile bounds allow 1e-9 relative slack for the linear interpolation',)
   QUICK_CASES = 720
   THOROUGH_CASES = 40000
@@ -36,6 +37,11 @@ class C18(BaseCheck):
       _VARZ = {'cnt': Counter, 'rate': Rate, 'agg': AggregateTimer, 'g': Gauge, 'lat': AverageTimer,
                'sz': AverageRate, 'agg2': AggregateTimer}
     self.V = V
+
+    class W(VarzBase):      # another component's metrics: same short names, same kinds, another base name
+      _VARZ_BASE_NAME = 'verif.c18w'
+      _VARZ = {'cnt': Counter, 'g': Gauge, 'lat': AverageTimer}
+    self.W = W
     from vlib import simnet
     self.net = simnet.Network(env)
     self.net.install()
@@ -65,6 +71,19 @@ class C18(BaseCheck):
       src = Source(method=t[0], service=t[1], endpoint=t[2], client_id=t[3])   # fresh object each time
       fresh_uses[t] = fresh_uses.get(t, 0) + 1
       k = rng.choice(['cnt', 'rate', 'agg', 'g', 'cnt-class', 'g'])
+      if k in ('cnt', 'g') and rng.random() < 0.2:
+        # the same short metric name on another component, through an equal source
+        classes.add('sibling-class-same-short-name')
+        if k == 'cnt':
+          amt = rng.choice([1, 2, 5, 7])
+          self.W(src).cnt(amt)
+          model_sum[('w:cnt', t)] = model_sum.get(('w:cnt', t), 0) + amt
+        else:
+          val = rng.randint(200, 300)
+          self.W(src).g(val)
+          model_gauge[('w', t)] = val
+        used.setdefault('w:' + k, set()).add(t)
+        continue
       if k == 'cnt':
         amt = rng.choice([1, 1, 2, 5, 0, -1, 0.25, 2.5])     # fractions exactly representable: sums are exact
         if amt == 0:
@@ -149,8 +168,8 @@ class C18(BaseCheck):
         out.violate('aggregate:timed-blocks', 'overlapping Measure() blocks for %r lasted %.3f s in total, the aggregate '
                     'timer reports %r' % (key, want, got and got.total), {'metric_kind': 'agg2'})
     equal_distinct = any(v >= 2 for v in fresh_uses.values())
-    for short in ('cnt', 'rate', 'agg', 'g'):
-      metric = 'verif.c18.' + short
+    for short in ('cnt', 'rate', 'agg', 'g', 'w:cnt', 'w:g'):
+      metric = 'verif.c18.' + short if short[:2] != 'w:' else 'verif.c18w.' + short[2:]
       ts = used.get(short, set())
       if not ts:
         continue
@@ -164,25 +183,26 @@ class C18(BaseCheck):
       by_key = {}
       for t in ts:
         key = (t[1], t[3])
-        v = model_gauge[t] if short == 'g' else model_sum[(short, t)]
+        v = model_gauge[t] if short == 'g' else model_gauge[('w', t)] if short == 'w:g' else model_sum[(short, t)]
         by_key[key] = by_key.get(key, 0) + v
       for key, want in by_key.items():
         out.obligations += 1
         got = agg.get(metric, {}).get(key)
-        if short == 'g':
+        if short in ('g', 'w:g'):
           # a gauge reports the last value set: judged per series through a fresh equal Source
           continue
         if got is None or got.total != want:
           out.violate('aggregate:sum', '%s for %r aggregated to %r, increments sum to %r' % (
             metric, key, got and got.total, want), {'metric_kind': short})
-      if short == 'g':
+      if short in ('g', 'w:g'):
         for t in ts:
           out.obligations += 1
           probe = Source(method=t[0], service=t[1], endpoint=t[2], client_id=t[3])
           got = series.get(probe, 'MISSING') if hasattr(series, 'get') else 'MISSING'
-          if got != model_gauge[t]:
-            out.violate('gauge:last-value', 'gauge for %r reads %r through an equal source, last value set %r'
-                        % (t, got, model_gauge[t]), {'metric_kind': 'g'})
+          want_g = model_gauge[t] if short == 'g' else model_gauge[('w', t)]
+          if got != want_g:
+            out.violate('gauge:last-value', 'gauge %s for %r reads %r through an equal source, last value set %r'
+                        % (metric, t, got, want_g), {'metric_kind': short})
     # ---------------- percentiles, single source
     stream_cls = rng.choice(['constant', 'sorted', 'random', 'heavy', 'negative'])
     size = rng.choice([1, 2, 3, 10, 999, 1000, 1001, 1500, 3000])
